@@ -2,6 +2,7 @@ import GoawkModel.Basic
 import GoawkModel.C20
 import GoawkModel.C20Quote
 import GoawkModel.Drv.C04
+import GoawkModel.C20Stmt
 /-! Line-protocol handler for property C20 (request already split into words, without the leading `c20`):
 
   `show <pc> tok*`  → `ok tok*` : parse the tokens with the C04 model parser (the last token is the terminator and must be
@@ -9,6 +10,53 @@ import GoawkModel.Drv.C04
   `quote <hex> <cp>*`, `unquote <hex>`, `fmtre <hex>`, `lexre <hex>` → see `GoawkModel.C20Quote.handleQuote` -/
 namespace GoawkModel.Drv.C20
 open GoawkModel GoawkModel.C04 GoawkModel.C20
+
+/-! statement level: `stmt tok*` → `ok <#left> <tree>` | `reject`;  `showstmt tok*` → `ok tok*` (print of the parse).
+Token words: `if else while do for { } ( ) ; nl e<k> s<k> in<k>`. -/
+open GoawkModel.C20Stmt in
+def stokWord : STok → String
+  | .kIf => "if" | .kElse => "else" | .kWhile => "while" | .kDo => "do" | .kFor => "for"
+  | .lbrace => "{" | .rbrace => "}" | .lparen => "(" | .rparen => ")" | .semi => ";" | .nl => "nl"
+  | .expr c => s!"e{c}" | .simple k => s!"s{k}" | .forin k => s!"in{k}" | .eof => "eof"
+
+open GoawkModel.C20Stmt in
+def wordSTok (w : String) : Option STok :=
+  match w with
+  | "if" => some .kIf | "else" => some .kElse | "while" => some .kWhile | "do" => some .kDo | "for" => some .kFor
+  | "{" => some .lbrace | "}" => some .rbrace | "(" => some .lparen | ")" => some .rparen | ";" => some .semi | "nl" => some .nl
+  | _ =>
+    if w.startsWith "in" then ((w.drop 2).toString.toNat?).map STok.forin
+    else if w.startsWith "e" then ((w.drop 1).toString.toNat?).map STok.expr
+    else if w.startsWith "s" then ((w.drop 1).toString.toNat?).map STok.simple
+    else none
+
+open GoawkModel.C20Stmt in
+def showOptNat : Option Nat → String
+  | some k => toString k
+  | none => "-"
+
+open GoawkModel.C20Stmt in
+def showSTree : S → String
+  | .skip => "skip"
+  | .seq s r => "(seq " ++ showSTree s ++ " " ++ showSTree r ++ ")"
+  | .simple k => s!"(simple {k})"
+  | .ifS c b e => s!"(if {c} " ++ showSTree b ++ " " ++ showSTree e ++ ")"
+  | .whileS c b => s!"(while {c} " ++ showSTree b ++ ")"
+  | .doS b c => "(do " ++ showSTree b ++ s!" {c})"
+  | .forS p c q b => "(for " ++ showOptNat p ++ " " ++ showOptNat c ++ " " ++ showOptNat q ++ " " ++ showSTree b ++ ")"
+  | .forIn k b => s!"(forin {k} " ++ showSTree b ++ ")"
+  | .block b => "(block " ++ showSTree b ++ ")"
+
+open GoawkModel.C20Stmt in
+def handleStmt (cmd : String) (ws : List String) : String :=
+  match ws.mapM wordSTok with
+  | none => "bad-token"
+  | some ts =>
+    match parseStmt ts with
+    | none => "reject"
+    | some (s, rest, _) =>
+      if cmd == "stmt" then s!"ok {rest.length} " ++ showSTree s
+      else "ok " ++ String.intercalate " " ((showS s).map stokWord)
 
 def handle (args : List String) : String :=
   match args with
@@ -19,6 +67,8 @@ def handle (args : List String) : String :=
       match parseExpr (pcw == "1") ts with
       | .error x => Drv.C04.errWord x
       | .ok (e, rest) => if rest.length == 1 then "ok " ++ Drv.C04.showToks (showE e) else "err rest"
+  | "stmt" :: ws => handleStmt "stmt" ws
+  | "showstmt" :: ws => handleStmt "showstmt" ws
   | _ =>
     match C20Quote.handleQuote args with
     | some s => s
